@@ -17,6 +17,8 @@ mod fam_format;
 mod fam_partial;
 mod fam_pset;
 mod fam_robust;
+mod fam_schemasyn;
+mod schema_syntax;
 mod fam_slice;
 mod fam_store;
 mod fam_symcc;
@@ -80,6 +82,7 @@ fn family(name: &str) -> Option<(Runner, Driver)> {
         "ffi" => (fam_ffi::run, fam_ffi::drive),
         "symcc" => (fam_symcc::run, fam_symcc::drive),
         "robust" => (fam_robust::run, fam_robust::drive),
+        "schemasyn" => (fam_schemasyn::run, fam_schemasyn::drive),
         _ => return None,
     })
 }
